@@ -215,6 +215,17 @@ fn tb_examples(tb: &Tablebase, kind: u8, n: u16, count: usize) -> Vec<Pos> {
     all.into_iter().step_by(step).take(count).collect()
 }
 
+fn root_win(tb: &Tablebase, p: &Pos) -> usize {
+    match tb.probe(p) {
+        Some(Val::Win(n)) => n as usize,
+        _ => 0,
+    }
+}
+
+fn good_moves(tb: &Tablebase, p: &Pos) -> String {
+    p.legal().into_iter().filter(|(_, n)| matches!(tb.probe(n), Some(Val::Loss(_)))).map(|(m, _)| m.lan()).collect::<Vec<_>>().join(",")
+}
+
 pub fn jobs_c06(quick: bool) -> Vec<Job> {
     let tb = Tablebase::build(threads());
     let mut v = Vec::new();
@@ -238,10 +249,10 @@ pub fn jobs_c06(quick: bool) -> Vec<Job> {
                 if quick && pb == Some(2) && d == 3 {
                     continue;
                 }
-                v.push(job("workers_mate", pb, t, &[("fen", p.fen()), ("depth", s(d)), ("workers", s(2)), ("tables", s(1)), ("buckets", s(32))]));
+                v.push(job("workers_mate", pb, t, &[("fen", p.fen()), ("depth", s(d)), ("workers", s(2)), ("tables", s(1)), ("buckets", s(32)), ("root-win", s(root_win(&tb, p))), ("good", good_moves(&tb, p))]));
             }
             if *n == 1 {
-                v.push(job("workers_mate", pb, t, &[("fen", p.fen()), ("depth", s(1)), ("workers", s(3)), ("tables", s(1)), ("buckets", s(1))]));
+                v.push(job("workers_mate", pb, t, &[("fen", p.fen()), ("depth", s(1)), ("workers", s(3)), ("tables", s(1)), ("buckets", s(1)), ("root-win", s(root_win(&tb, p))), ("good", good_moves(&tb, p))]));
             }
         }
     }
@@ -261,22 +272,42 @@ pub fn jobs_c15(quick: bool) -> Vec<Job> {
 }
 
 pub fn jobs_c17(quick: bool) -> Vec<Job> {
+    use oracle::tb::mate_distance;
     let mut v = Vec::new();
     let t = if quick { 60 } else { 900 };
-    let mut fens = vec!["8/8/8/8/8/k2r4/8/K7 b - - 4 3".to_string()];
-    if !quick {
-        let tb = Tablebase::build(threads());
-        for p in tb_examples(&tb, QUEEN, 1, 3) {
-            let winners = p.legal().into_iter().filter(|(_, n)| matches!(tb.probe(n), Some(Val::Loss(_)))).count();
-            if winners >= 2 {
-                fens.push(p.fen());
-            }
+    let tb = Tablebase::build(threads());
+    let mut roots = vec![Pos::from_fen("8/8/8/8/8/k2r4/8/K7 b - - 4 3").unwrap()];
+    for k in [QUEEN, ROOK] {
+        for p in tb_examples(&tb, k, 1, if quick { 2 } else { 6 }) {
+            roots.push(p.mirror());
+            roots.push(p);
         }
     }
     for pb in bounds(quick) {
-        for fen in &fens {
-            for variant in 0..(if quick { 2 } else { 4 }) {
-                v.push(job("workers_history", pb, t, &[("fen", fen.clone()), ("workers", s(2)), ("variant", s(variant)), ("tables", s(1)), ("buckets", s(32))]));
+        for p in &roots {
+            let winners: Vec<(Mv, Pos)> = p.legal().into_iter().filter(|(_, n)| matches!(tb.probe(n), Some(Val::Loss(_)))).collect();
+            if winners.len() < 2 {
+                continue;
+            }
+            let root_key = p.key();
+            for (rec_mv, rec_pos) in winners.iter().take(if quick { 2 } else { 4 }) {
+                let rec_key = rec_pos.key();
+                let drawn = |q: &Pos| {
+                    let k = q.key();
+                    k == rec_key || k == root_key
+                };
+                let Some(n2) = mate_distance(p, 3, &drawn) else { continue };
+                for d in [n2 as usize, n2 as usize + 1] {
+                    if d > 3 || (quick && pb == Some(2) && d == 3) {
+                        continue; // loom: two workers x three iterations is the thread limit
+                    }
+                    v.push(job(
+                        "workers_history",
+                        pb,
+                        t,
+                        &[("fen", p.fen()), ("workers", s(2)), ("depth", s(d)), ("rec-fen", rec_pos.fen()), ("rec-move", rec_mv.lan()), ("good", good_moves(&tb, p)), ("tables", s(1)), ("buckets", s(32))],
+                    ));
+                }
             }
         }
     }
